@@ -1,7 +1,7 @@
 (* RoundTrip.v — encoding a well-formed call sequence and decoding the bytes gives the calls back,
    every number replaced by what its written form denotes (C01). *)
 From Coq Require Import ZArith Bool List Lia ZifyBool.
-From IVG Require Import SF NumCodec Color Calls Decoder Encoder NumBase NumProofs ColorProofs DecProofs EncProofs.
+From IVG Require Import SF SFProofs NumCodec Color Calls Decoder Encoder NumBase NumProofs ColorProofs DecProofs EncProofs.
 Import ListNotations.
 Local Open Scope Z_scope.
 Ltac Zify.zify_post_hook ::= Z.div_mod_to_equations.
@@ -82,7 +82,7 @@ Proof.
 Qed.
 
 (* ---------- running the decoder on instruction bytes, fuel-free ---------- *)
-Lemma step_shrinks d opcode rest its d' b' :
+Lemma step_shrinks (d : bool) opcode rest its d' b' :
   (if d then drawing_step else styling_step) opcode rest = (its, StepOk d' b') -> (length b' <= length rest)%nat.
 Proof.
   intros E.
@@ -111,14 +111,14 @@ Definition run (d : bool) (b : list byte) : list call * outcome :=
 Lemma run_nil d : run d [] = ([], Done).
 Proof. reflexivity. Qed.
 
-Lemma run_step d opcode rest its d' b' :
+Lemma run_step (d : bool) opcode rest its d' b' :
   (if d then drawing_step else styling_step) opcode rest = (its, StepOk d' b') ->
   run d (opcode :: rest) = let '(cs, o) := run d' b' in (calls_of its ++ cs, o).
 Proof.
   intros E. unfold run. cbn [length dec_ops]. rewrite E.
   pose proof (step_shrinks d opcode rest its d' b' E) as Sh.
   rewrite (dec_ops_fuel (length rest) (length b') d' b' Sh (le_n _)).
-  destruct (dec_ops (length b') d' b') as [its' o]. rewrite calls_of_app. reflexivity.
+  destruct (dec_ops (length b') d' b') as [its' o]. cbv beta iota zeta. f_equal. apply calls_of_app.
 Qed.
 
 (* ---------- coordinates in a row ---------- *)
@@ -133,5 +133,805 @@ Proof.
     rewrite <- app_assoc. unfold read_num. rewrite (dec_coord_app y _ Wy).
     rewrite skipn_app, skipn_all, Nat.sub_diag. cbn [skipn app].
     destruct (IH rest Wys) as (its & E & C). rewrite E.
-    eexists. split; [reflexivity|]. cbn [map]. rewrite calls_of_app, C. reflexivity.
+    eexists. split; [reflexivity|]. unfold calls_of in *. cbn [flat_map app]. exact C.
+Qed.
+
+(* ---------- the decoded image of a call ---------- *)
+Definition qc (hl : bool) (f : f32) : f32 := q_coord (quantize hl f).
+Definition qvb (v : viewbox) : viewbox := mkVB (q_coord (vminx v)) (q_coord (vminy v)) (q_coord (vmaxx v)) (q_coord (vmaxy v)).
+
+Definition qcall (hl : bool) (c : call) : call :=
+  match c with
+  | CReset vb pal => CReset (qvb vb) pal
+  | CSetCSel s => CSetCSel (s mod 64)
+  | CSetNSel s => CSetNSel (s mod 64)
+  | CSetCReg adj incr col => CSetCReg adj incr col
+  | CSetNReg adj incr f => CSetNReg adj incr (q_nreg f)
+  | CSetLOD a b => CSetLOD (q_real a) (q_real b)
+  | CStartPath adj x y => CStartPath adj (qc hl x) (qc hl y)
+  | CDraw op args => CDraw op (map (qc hl) args)
+  | CArc rel rx ry rot la sw x y => CArc rel (qc hl rx) (qc hl ry) (q_angle rot) la sw (qc hl x) (qc hl y)
+  | CEndPath => CEndPath
+  end.
+
+Lemma wf_quantize h f : wf_f32 f -> wf_f32 (quantize h f).
+Proof.
+  intros W. unfold quantize. destruct (negb h && fle F32 cm128 f && flt F32 f c128) eqn:E; [|exact W].
+  apply andb_true_iff in E as [E E3]. apply andb_true_iff in E as [E1 E2].
+  pose proof (quantize_nearest f W E2 E3) as Q. cbv zeta in Q. destruct Q as (_ & _ & Wq & _).
+  unfold quantize in Wq. rewrite E2, E3 in Wq. cbn in Wq. exact Wq.
+Qed.
+
+Lemma enc_coords_encs e l : enc_coords e l = encs (map (quant e) l).
+Proof. induction l as [|x l IH]; cbn [enc_coords map encs flat_map]; [reflexivity|]. rewrite IH. reflexivity. Qed.
+
+(* the draw operations that are buffered into runs *)
+Definition run_ops : list Z := [65; 67; 72; 76; 81; 83; 84; 86; 89; 97; 99; 104; 108; 113; 115; 116; 118; 121].
+Definition nargs_of (op : Z) : Z := snd (op_info op).
+
+Definition wf_arc_or_draw (c : call) : Prop :=
+  match c with
+  | CDraw op args => In op run_ops /\ op <> opA /\ op <> opa /\
+                     Z.of_nat (length args) = nargs_of op /\ Forall wf_f32 args
+  | CArc _ rx ry rot _ _ x y => wf_f32 rx /\ wf_f32 ry /\ wf_f32 rot /\ wf_f32 x /\ wf_f32 y
+  | _ => False
+  end.
+
+Definition op_of (c : call) : Z :=
+  match c with
+  | CDraw op _ => op
+  | CArc rel _ _ _ _ _ _ _ => if rel then opa else opA
+  | _ => 0
+  end.
+Definition flag_num (la sw : bool) : Z := (if la then 1 else 0) + (if sw then 2 else 0).
+Definition args_of (c : call) : list f32 :=
+  match c with
+  | CDraw _ args => args
+  | CArc _ rx ry rot la sw x y => [rx; ry; rot; of_Z F32 (flag_num la sw); x; y]
+  | _ => []
+  end.
+
+(* the operand bytes of one repetition *)
+Definition opbytes (e : enc) (c : call) : list byte :=
+  match c with
+  | CDraw _ args => enc_coords e args
+  | CArc _ rx ry rot la sw x y =>
+      enc_coordinate (quant e rx) ++ enc_coordinate (quant e ry) ++ enc_angle rot
+      ++ enc_natural (flag_num la sw) ++ enc_coordinate (quant e x) ++ enc_coordinate (quant e y)
+  | _ => []
+  end.
+
+Definition one_of (op : Z) (nc : nat) : list byte -> list item * option (list byte) :=
+  if op =? opA then arc_rep false else if op =? opa then arc_rep true else draw_rep op nc.
+
+Lemma flags_roundtrip la sw : flags_of (of_Z F32 (flag_num la sw)) = flag_num la sw.
+Proof. destruct la, sw; vm_compute; reflexivity. Qed.
+
+Lemma flag_bits la sw : negb (flag_num la sw mod 2 =? 0) = la /\ negb ((flag_num la sw / 2) mod 2 =? 0) = sw.
+Proof. destruct la, sw; vm_compute; split; reflexivity. Qed.
+
+Lemma wf_angle_norm f : wf_f32 (angle_norm f).
+Proof. unfold angle_norm, wf_f32. apply f64_to_f32_range. Qed.
+
+Lemma quant_wf e f : wf_f32 f -> wf_f32 (quant e f).
+Proof. apply wf_quantize. Qed.
+
+Lemma Forall_map_wf e l : Forall wf_f32 l -> Forall wf_f32 (map (quant e) l).
+Proof. induction 1; cbn [map]; constructor; [apply quant_wf|]; assumption. Qed.
+
+(* one repetition of a buffered operation decodes to the image of the call *)
+Lemma one_rep e c rest : wf_arc_or_draw c ->
+  exists its, one_of (op_of c) (Z.to_nat (nargs_of (op_of c))) (opbytes e c ++ rest) = (its, Some rest)
+              /\ calls_of its = [qcall (e_hires_l e) c].
+Proof.
+  intros W. destruct c as [| | | | | | |op args|rel rx ry rot la sw x y|]; try contradiction.
+  - cbn [wf_arc_or_draw op_of] in *. destruct W as (Hop & NA & Na & Hl & Wa).
+    unfold one_of. apply Z.eqb_neq in NA, Na. rewrite NA, Na.
+    cbn [opbytes]. rewrite enc_coords_encs. unfold draw_rep.
+    destruct (read_coords_app (map (quant e) args) rest (Forall_map_wf e args Wa)) as (its & E & C).
+    match type of E with read_coords ?n _ = _ =>
+      replace (Z.to_nat (nargs_of op)) with n by (rewrite map_length; lia) end.
+    rewrite E. eexists. split; [reflexivity|]. rewrite calls_of_app, C. cbn [calls_of flat_map app qcall].
+    rewrite map_map. reflexivity.
+  - cbn [wf_arc_or_draw op_of] in *. destruct W as (Wrx & Wry & Wrot & Wx & Wy).
+    assert (Hone : one_of (if rel then opa else opA) (Z.to_nat (nargs_of (if rel then opa else opA))) = arc_rep rel)
+      by (destruct rel; reflexivity).
+    rewrite Hone. cbn [opbytes]. unfold arc_rep.
+    destruct (read_coords_app [quant e rx; quant e ry]
+               (enc_angle rot ++ enc_natural (flag_num la sw) ++ enc_coordinate (quant e x) ++ enc_coordinate (quant e y) ++ rest))
+      as (its0 & E0 & C0); [repeat constructor; apply quant_wf; assumption|].
+    cbn [length encs flat_map map] in E0. rewrite app_nil_r, <- !app_assoc in E0. rewrite <- !app_assoc. rewrite E0.
+    unfold read_num, enc_angle. rewrite (dec_zto_app (angle_norm rot) _ (wf_angle_norm rot)).
+    rewrite skipn_app, skipn_all, Nat.sub_diag. cbn [skipn app].
+    assert (Hf : 0 <= flag_num la sw < 1073741824) by (unfold flag_num; destruct la, sw; lia).
+    rewrite (nat_roundtrip (flag_num la sw) _ Hf).
+    rewrite skipn_app, skipn_all, Nat.sub_diag. cbn [skipn app].
+    destruct (read_coords_app [quant e x; quant e y] rest) as (its2 & E2 & C2); [repeat constructor; apply quant_wf; assumption|].
+    cbn [length encs flat_map map] in E2. rewrite app_nil_r, <- !app_assoc in E2. rewrite E2.
+    destruct (flag_bits la sw) as [B1 B2]. rewrite B1, B2.
+    eexists. split; [reflexivity|].
+    rewrite !calls_of_app, C0. cbn [calls_of flat_map app]. rewrite calls_of_app, C2. reflexivity.
+Qed.
+
+(* a run of repetitions *)
+Definition is_pending (op : Z) (c : call) : Prop :=
+  wf_arc_or_draw c /\ op_of c = op.
+
+Lemma reps_chunk e op chunk : forall first rest, Forall (is_pending op) chunk ->
+  exists its, reps first (length chunk) op (one_of op (Z.to_nat (nargs_of op))) (flat_map (opbytes e) chunk ++ rest) = (its, Some rest)
+              /\ calls_of its = map (qcall (e_hires_l e)) chunk.
+Proof.
+  induction chunk as [|c chunk IH]; intros first rest P.
+  - exists []. split; reflexivity.
+  - inversion P as [|? ? Pc Pr]; subst. destruct Pc as (W & Eop).
+    cbn [length flat_map reps]. rewrite <- app_assoc.
+    destruct (one_rep e c (flat_map (opbytes e) chunk ++ rest) W) as (its1 & E1 & C1).
+    rewrite Eop in E1. rewrite E1.
+    destruct (IH false rest Pr) as (its2 & E2 & C2). rewrite E2.
+    eexists. split; [reflexivity|].
+    rewrite !calls_of_app, C1, C2. destruct first; reflexivity.
+Qed.
+
+(* the header byte of a run: which operation, how many coordinates, how many repetitions *)
+Definition hdr (opcode : Z) : Z * nat * Z :=
+  let hi := opcode / 16 in
+  if hi <? 2 then (opL, 2%nat, 1 + opcode mod 32)
+  else if hi <? 4 then (opl, 2%nat, 1 + opcode mod 32)
+  else if hi =? 4 then (opT, 2%nat, 1 + opcode mod 16)
+  else if hi =? 5 then (opt, 2%nat, 1 + opcode mod 16)
+  else if hi =? 6 then (opQ, 4%nat, 1 + opcode mod 16)
+  else if hi =? 7 then (opq, 4%nat, 1 + opcode mod 16)
+  else if hi =? 8 then (opS, 4%nat, 1 + opcode mod 16)
+  else if hi =? 9 then (ops, 4%nat, 1 + opcode mod 16)
+  else if hi =? 10 then (opC, 6%nat, 1 + opcode mod 16)
+  else if hi =? 11 then (opc, 6%nat, 1 + opcode mod 16)
+  else if hi =? 12 then (opA, 0%nat, 1 + opcode mod 16)
+  else (opa, 0%nat, 1 + opcode mod 16).
+
+Lemma drawing_step_hdr opcode b : opcode <? 224 = true ->
+  drawing_step opcode b =
+  let '(op, ncoords, nreps) := hdr opcode in
+  match reps true (Z.to_nat nreps) op (one_of op ncoords) b with
+  | (its, Some b') => (ILine [opcode] (PDrawOp op nreps) :: its, StepOk true b')
+  | (its, None) => (ILine [opcode] (PDrawOp op nreps) :: its, StepErr EInvalidNumber)
+  end.
+Proof. intros H. unfold drawing_step, hdr, one_of. rewrite H. reflexivity. Qed.
+
+(* every run header the encoder can write decodes to its operation and count: finite sweep over the table *)
+Definition hdr_row_ok (row : Z * (Z * Z * Z)) : bool :=
+  let '(v, (base, maxrep, nargs)) := row in
+  if base <? 224 then
+    forallb (fun m => let '(op, nc, nreps) := hdr (base + m - 1) in
+                      (op =? v) && (nreps =? m) && (base + m - 1 <? 224) && (0 <=? base + m - 1) &&
+                      ((v =? opA) || (v =? opa) || (Z.of_nat nc =? nargs)))
+            (map Z.of_nat (seq 1 (Z.to_nat maxrep)))
+  else true.
+Lemma hdr_sweep : forallb hdr_row_ok draw_ops = true.
+Proof. vm_compute. reflexivity. Qed.
+
+Lemma lookup_in t : forall op v, lookup_op t op = v -> v <> (0, 0, 0) -> In (op, v) t.
+Proof.
+  induction t as [|[k w] t IH]; intros op v E N; cbn [lookup_op] in E; [congruence|].
+  destruct (k =? op) eqn:K.
+  - apply Z.eqb_eq in K. subst. left. reflexivity.
+  - right. apply IH; assumption.
+Qed.
+
+Lemma hdr_lookup v base maxrep nargs m : In (v, (base, maxrep, nargs)) draw_ops -> base <? 224 = true ->
+  1 <= m <= maxrep ->
+  exists nc, hdr (base + m - 1) = (v, nc, m) /\ (base + m - 1 <? 224) = true /\ 0 <= base + m - 1 /\
+             (v = opA \/ v = opa \/ Z.of_nat nc = nargs).
+Proof.
+  intros I B M. pose proof hdr_sweep as S. rewrite forallb_forall in S. specialize (S _ I).
+  unfold hdr_row_ok in S. rewrite B in S. rewrite forallb_forall in S.
+  assert (Im : In m (map Z.of_nat (seq 1 (Z.to_nat maxrep)))).
+  { apply in_map_iff. exists (Z.to_nat m). split; [lia|]. apply in_seq. lia. }
+  specialize (S m Im). destruct (hdr (base + m - 1)) as [[op nc] nreps].
+  exists nc. repeat (apply andb_true_iff in S; destruct S as [S ?]).
+  assert (op = v) as -> by lia. assert (nreps = m) as -> by lia.
+  split; [reflexivity|]. split; [assumption|]. split; [lia|].
+  repeat match goal with H : _ || _ = true |- _ => apply orb_true_iff in H; destruct H as [H|H] end; [left|right; left|right; right]; lia.
+Qed.
+
+Lemma simple_step code op nc b :
+  In (code, op, nc) [(226, opY, 2%nat); (227, opy, 2%nat); (230, opH, 1%nat); (231, oph, 1%nat); (232, opV, 1%nat); (233, opv, 1%nat)] ->
+  drawing_step code b =
+  match draw_rep op nc b with
+  | (its, Some b') => (ILine [code] (PSimple op) :: its, StepOk true b')
+  | (its, None) => (ILine [code] (PSimple op) :: its, StepErr EInvalidNumber)
+  end.
+Proof.
+  intros I. repeat (destruct I as [I|I]; [injection I as <- <- <-; reflexivity|]). destruct I.
+Qed.
+
+Lemma run_ops_info op : In op run_ops -> op_info op <> (0, 0, 0) /\ op <> opZ.
+Proof.
+  intros I. repeat (destruct I as [<-|I]; [split; vm_compute; congruence|]). destruct I.
+Qed.
+
+(* one chunk of a run: header byte and the operands of its repetitions *)
+Lemma chunk_decode e op base maxrep nargs chunk rest :
+  In op run_ops -> op_info op = (base, maxrep, nargs) ->
+  (1 <= length chunk)%nat -> Z.of_nat (length chunk) <= maxrep -> Forall (is_pending op) chunk ->
+  exists its, drawing_step (base + Z.of_nat (length chunk) - 1) (flat_map (opbytes e) chunk ++ rest) = (its, StepOk true rest)
+              /\ calls_of its = map (qcall (e_hires_l e)) chunk.
+Proof.
+  intros Iop Info L1 L2 P.
+  destruct (run_ops_info op Iop) as (Nz & _).
+  rewrite Info in Nz. pose proof (lookup_in draw_ops op _ Info Nz) as Irow.
+  assert (Hna : nargs_of op = nargs) by (unfold nargs_of; rewrite Info; reflexivity).
+  destruct (base <? 224) eqn:B.
+  - destruct (hdr_lookup op base maxrep nargs (Z.of_nat (length chunk)) Irow B ltac:(lia)) as (nc & Hh & Hlt & Hge & Hnc).
+    rewrite (drawing_step_hdr _ _ Hlt), Hh. rewrite Nat2Z.id.
+    assert (Hone : one_of op nc = one_of op (Z.to_nat (nargs_of op))).
+    { destruct Hnc as [->|[->|Hnc]]; [reflexivity|reflexivity|]. rewrite Hna, <- Hnc, Nat2Z.id. reflexivity. }
+    rewrite Hone.
+    destruct (reps_chunk e op chunk true rest P) as (its & E & C). rewrite E.
+    eexists. split; [reflexivity|]. exact C.
+  - (* H h V v *)
+    assert (Hcases : In (base, op, Z.to_nat nargs) [(226, opY, 2%nat); (227, opy, 2%nat); (230, opH, 1%nat); (231, oph, 1%nat); (232, opV, 1%nat); (233, opv, 1%nat)] /\ maxrep = 1).
+    { clear - Iop Info B. unfold op_info in Info.
+      repeat (destruct Iop as [<-|Iop]; [vm_compute in Info; injection Info as <- <- <-;
+               first [vm_compute in B; discriminate B | split; [vm_compute; tauto|reflexivity]]|]). destruct Iop. }
+    destruct Hcases as [Hc ->].
+    assert (Hlen : length chunk = 1%nat) by lia.
+    destruct chunk as [|c [|? ?]]; try (cbn in Hlen; lia). clear Hlen.
+    cbn [length Z.of_nat Pos.of_succ_nat]. replace (base + 1 - 1) with base by lia.
+    rewrite (simple_step base op (Z.to_nat nargs)); [|exact Hc].
+    destruct (Forall_inv P) as (W & Eop).
+    destruct (one_rep e c rest W) as (its1 & E1 & C1).
+    rewrite Eop in E1. cbn [flat_map]. rewrite app_nil_r.
+    assert (Hone : one_of op (Z.to_nat (nargs_of op)) = draw_rep op (Z.to_nat nargs)).
+    { rewrite Hna. clear - Hc. repeat (destruct Hc as [Hc|Hc]; [injection Hc as <- <- _; reflexivity|]). destruct Hc. }
+    rewrite Hone in E1. rewrite E1.
+    eexists. split; [reflexivity|]. cbn [calls_of flat_map map app] in *. exact C1.
+Qed.
+
+Definition pre (cs : list call) (r : list call * outcome) : list call * outcome := (cs ++ fst r, snd r).
+Lemma pre_nil r : pre [] r = r. Proof. destruct r; reflexivity. Qed.
+Lemma pre_app a b r : pre (a ++ b) r = pre a (pre b r).
+Proof. unfold pre. cbn [fst snd]. rewrite app_assoc. reflexivity. Qed.
+
+Lemma run_step_pre (d : bool) opcode rest its d' b' :
+  (if d then drawing_step else styling_step) opcode rest = (its, StepOk d' b') ->
+  run d (opcode :: rest) = pre (calls_of its) (run d' b').
+Proof. intros E. rewrite (run_step d opcode rest its d' b' E). destruct (run d' b'). reflexivity. Qed.
+
+Lemma flat_firstn_skipn {A B} (f : A -> list B) (n : nat) : forall (k : nat) (l : list A),
+  Forall (fun x => length (f x) = n) l ->
+  firstn (k * n) (flat_map f l) = flat_map f (firstn k l) /\ skipn (k * n) (flat_map f l) = flat_map f (skipn k l).
+Proof.
+  induction k as [|k IH]; intros l F; [split; reflexivity|].
+  destruct l as [|x l]; [split; cbn; rewrite ?firstn_nil, ?skipn_nil; reflexivity|].
+  pose proof (Forall_inv F) as Fx. pose proof (Forall_inv_tail F) as Fl. cbv beta in Fx. destruct (IH l Fl) as [I1 I2].
+  cbn [flat_map firstn skipn Nat.mul].
+  rewrite firstn_app, skipn_app. rewrite <- Fx.
+  rewrite (firstn_all2 (n := length (f x) + k * length (f x))) by lia.
+  rewrite (skipn_all2 (n := length (f x) + k * length (f x))) by lia.
+  replace (length (f x) + k * length (f x) - length (f x))%nat with (k * length (f x))%nat by lia.
+  rewrite Fx, I1, I2. split; reflexivity.
+Qed.
+
+Lemma enc_coords_app e a b : enc_coords e (a ++ b) = enc_coords e a ++ enc_coords e b.
+Proof. induction a as [|x a IH]; cbn [enc_coords app]; [reflexivity|]. rewrite IH, app_assoc. reflexivity. Qed.
+
+Definition is_arc_op (op : Z) : bool := (op =? opA) || (op =? opa).
+
+Lemma pending_nonarc op c : is_pending op c -> is_arc_op op = false ->
+  exists args, c = CDraw op args /\ Z.of_nat (length args) = nargs_of op.
+Proof.
+  intros (W & Eop) NA. destruct c; try contradiction; cbn [op_of] in Eop.
+  - destruct W as (_ & _ & _ & L & _). subst. eauto.
+  - subst op. destruct rel; discriminate.
+Qed.
+
+Lemma pending_arc op c : is_pending op c -> is_arc_op op = true ->
+  exists rx ry rot la sw x y, c = CArc (op =? opa) rx ry rot la sw x y.
+Proof.
+  intros (W & Eop) A. destruct c; try contradiction; cbn [op_of] in Eop.
+  - destruct W as (_ & N1 & N2 & _). subst op. unfold is_arc_op in A. apply orb_true_iff in A. lia.
+  - subst op. destruct rel; repeat eexists.
+Qed.
+
+Lemma enc_coords_chunk e op chunk : Forall (is_pending op) chunk -> is_arc_op op = false ->
+  enc_coords e (flat_map args_of chunk) = flat_map (opbytes e) chunk.
+Proof.
+  intros P NA. induction P as [|c chunk Pc Pr IH]; [reflexivity|].
+  destruct (pending_nonarc op c Pc NA) as (args & -> & _).
+  cbn [flat_map args_of opbytes]. rewrite enc_coords_app, IH. reflexivity.
+Qed.
+
+Lemma enc_arcs_chunk e op chunk : forall more, Forall (is_pending op) chunk -> is_arc_op op = true ->
+  enc_arcs e (length chunk) (flat_map args_of chunk ++ more) = (flat_map (opbytes e) chunk, more).
+Proof.
+  intros more P A. induction P as [|c chunk Pc Pr IH]; [reflexivity|].
+  destruct (pending_arc op c Pc A) as (rx & ry & rot & la & sw & x & y & ->).
+  cbn [length flat_map args_of app enc_arcs]. rewrite IH. cbn [opbytes].
+  rewrite flags_roundtrip, <- !app_assoc. reflexivity.
+Qed.
+
+Lemma args_len op c : is_pending op c -> In op run_ops ->
+  length (args_of c) = Z.to_nat (nargs_of op).
+Proof.
+  intros P I. destruct (is_arc_op op) eqn:A.
+  - destruct (pending_arc op c P A) as (rx & ry & rot & la & sw & x & y & ->). cbn [args_of length].
+    unfold is_arc_op in A. apply orb_true_iff in A as [A|A]; apply Z.eqb_eq in A; subst op; reflexivity.
+  - destruct (pending_nonarc op c P A) as (args & -> & L). cbn [args_of]. lia.
+Qed.
+
+Lemma table_facts op base maxrep nargs : In op run_ops -> op_info op = (base, maxrep, nargs) ->
+  1 <= maxrep /\ 1 <= nargs /\ 0 <= base /\ base + maxrep - 1 < 256.
+Proof.
+  intros I Info. unfold op_info in Info.
+  repeat (destruct I as [<-|I]; [vm_compute in Info; injection Info as <- <- <-; lia|]). destruct I.
+Qed.
+
+Lemma flush_chunks_decode e op base maxrep nargs : In op run_ops -> op_info op = (base, maxrep, nargs) ->
+  forall fuel pend tail, (length pend <= fuel)%nat -> Forall (is_pending op) pend ->
+  run true (flush_chunks fuel e op base maxrep nargs (Z.of_nat (length pend)) (flat_map args_of pend) ++ tail)
+  = pre (map (qcall (e_hires_l e)) pend) (run true tail).
+Proof.
+  intros Iop Info. destruct (table_facts op base maxrep nargs Iop Info) as (Hm & Hn & Hb & Hmax).
+  assert (Hna : nargs_of op = nargs) by (unfold nargs_of; rewrite Info; reflexivity).
+  induction fuel as [|fuel IH]; intros pend tail L P.
+  - destruct pend; [|cbn in L; lia]. cbn [flush_chunks app map]. rewrite pre_nil. reflexivity.
+  - cbn [flush_chunks].
+    destruct pend as [|c0 pend0] eqn:Ep.
+    { cbn [length Z.of_nat Z.leb Z.compare app map]. rewrite pre_nil. reflexivity. }
+    rewrite <- Ep in *. assert (Hlen : (1 <= length pend)%nat) by (rewrite Ep; cbn; lia). clear Ep c0 pend0.
+    assert (Hle : Z.of_nat (length pend) <=? 0 = false) by lia. rewrite Hle.
+    set (n := Z.of_nat (length pend)) in *.
+    set (m := Z.min n maxrep).
+    assert (Hm1 : 1 <= m <= maxrep /\ m <= n) by (unfold m, n; lia).
+    set (chunk := firstn (Z.to_nat m) pend). set (pend' := skipn (Z.to_nat m) pend).
+    assert (Hsplit : pend = chunk ++ pend') by (symmetry; apply firstn_skipn).
+    assert (Hlc : length chunk = Z.to_nat m) by (unfold chunk; rewrite firstn_length; unfold n in *; lia).
+    assert (Hlp : Z.of_nat (length pend') = n - m) by (unfold pend'; rewrite skipn_length; unfold n in *; lia).
+    assert (Pc : Forall (is_pending op) chunk) by (rewrite Hsplit in P; apply Forall_app in P; tauto).
+    assert (Pp : Forall (is_pending op) pend') by (rewrite Hsplit in P; apply Forall_app in P; tauto).
+    assert (Hhd : (base + m - 1) mod 256 = base + Z.of_nat (length chunk) - 1) by (rewrite Hlc; lia).
+    rewrite Hhd.
+    fold (is_arc_op op).
+    assert (Hgoal : run true (((base + Z.of_nat (length chunk) - 1) :: flat_map (opbytes e) chunk ++
+                       flush_chunks fuel e op base maxrep nargs (Z.of_nat (length pend')) (flat_map args_of pend')) ++ tail)
+                    = pre (map (qcall (e_hires_l e)) pend) (run true tail)).
+    { rewrite <- app_comm_cons, <- app_assoc.
+      destruct (chunk_decode e op base maxrep nargs chunk
+                  (flush_chunks fuel e op base maxrep nargs (Z.of_nat (length pend')) (flat_map args_of pend') ++ tail)
+                  Iop Info) as (its & E & C); [lia|lia|exact Pc|].
+      rewrite (run_step_pre true _ _ its true _ E), C.
+      rewrite (IH pend' tail); [|lia|exact Pp].
+      rewrite <- pre_app, <- map_app, <- Hsplit. reflexivity. }
+    destruct (is_arc_op op) eqn:A.
+    + rewrite Hsplit at 1. rewrite flat_map_app, <- Hlc, (enc_arcs_chunk e op chunk _ Pc A), <- Hlp. exact Hgoal.
+    + assert (Hk : Z.to_nat (m * nargs) = (Z.to_nat m * Z.to_nat (nargs_of op))%nat) by (rewrite Hna; lia).
+      rewrite Hk.
+      assert (Fl : Forall (fun x => length (args_of x) = Z.to_nat (nargs_of op)) pend).
+      { eapply Forall_impl; [|exact P]. intros c Pcc. apply (args_len op c Pcc Iop). }
+      destruct (flat_firstn_skipn args_of (Z.to_nat (nargs_of op)) (Z.to_nat m) pend Fl) as [F1 F2].
+      rewrite F1, F2. fold chunk pend'. rewrite (enc_coords_chunk e op chunk Pc A), <- Hlp. exact Hgoal.
+Qed.
+
+(* ---------- the encoder's state as a set of calls not yet written ---------- *)
+Definition pend_ok (e : enc) (pend : list call) : Prop :=
+  match pend with
+  | [] => e_drawop e = 0 /\ e_drawargs e = []
+  | _ => In (e_drawop e) run_ops /\ Forall (is_pending (e_drawop e)) pend /\ e_drawargs e = flat_map args_of pend
+  end.
+
+Definition RInv (e : enc) (pend : list call) : Prop :=
+  e_err e = None /\ pend_ok e pend /\
+  match e_mode e with MInitial => False | MStyling => pend = [] | MDrawing => True end.
+
+Definition dmode (e : enc) : bool := match e_mode e with MDrawing => true | _ => false end.
+
+Lemma flat_len {A B} (f : A -> list B) n l : Forall (fun x => length (f x) = n) l ->
+  length (flat_map f l) = (length l * n)%nat.
+Proof.
+  induction 1 as [|x l Hx Hl IH]; [reflexivity|]. cbn [flat_map length]. rewrite app_length, IH, Hx. lia.
+Qed.
+
+Lemma run_ops_nonzero op : In op run_ops -> op =? 0 = false.
+Proof. intros I. repeat (destruct I as [<-|I]; [reflexivity|]). destruct I. Qed.
+
+(* flush writes the pending calls: decoding what it appends yields exactly their images *)
+Lemma flush_decode e pend : pend_ok e pend ->
+  exists fb, flush e = mkEnc (e_hires e) (e_hires_l e) (e_buf e ++ fb) (e_err e) (e_lod0 e) (e_lod1 e)
+                             (e_csel e) (e_nsel e) (e_mode e) 0 []
+             /\ forall tail, run true (fb ++ tail) = pre (map (qcall (e_hires_l e)) pend) (run true tail).
+Proof.
+  intros P. unfold pend_ok in P. destruct pend as [|c0 pend0] eqn:Ep.
+  - destruct P as [P0 Pa]. exists []. split.
+    + unfold flush. rewrite P0. cbn [Z.eqb]. destruct e; cbn in *. subst. rewrite app_nil_r. reflexivity.
+    + intros tail. cbn [app map]. rewrite pre_nil. reflexivity.
+  - rewrite <- Ep in *. destruct P as (Iop & Pp & Pa).
+    unfold flush. rewrite (run_ops_nonzero _ Iop).
+    destruct (op_info (e_drawop e)) as [[base maxrep] nargs] eqn:Info.
+    destruct (table_facts _ _ _ _ Iop Info) as (Hm & Hn & Hb & Hmax).
+    assert (Hna : nargs_of (e_drawop e) = nargs) by (unfold nargs_of; rewrite Info; reflexivity).
+    assert (Hz : nargs =? 0 = false) by lia. rewrite Hz.
+    assert (Fl : Forall (fun x => length (args_of x) = Z.to_nat nargs) pend).
+    { eapply Forall_impl; [|exact Pp]. intros c Pc. rewrite <- Hna. apply (args_len _ c Pc Iop). }
+    assert (Hlen : Z.of_nat (length (e_drawargs e)) / nargs = Z.of_nat (length pend)).
+    { rewrite Pa, (flat_len args_of _ _ Fl). rewrite Nat2Z.inj_mul, Z2Nat.id by lia. apply Z.div_mul. lia. }
+    rewrite Hlen. eexists. split; [reflexivity|].
+    intros tail. rewrite Pa at 2.
+    apply (flush_chunks_decode e _ base maxrep nargs Iop Info); [|exact Pp].
+    rewrite Pa, (flat_len args_of _ _ Fl). nia.
+Qed.
+
+(* ---------- single styling instructions ---------- *)
+Lemma skipn_app_len {A} (a b : list A) : skipn (length a) (a ++ b) = b.
+Proof. rewrite skipn_app, skipn_all, Nat.sub_diag. reflexivity. Qed.
+
+Lemma ins_csel s out : run false ((s mod 64) :: out) = pre [CSetCSel (s mod 64)] (run false out).
+Proof.
+  assert (E : styling_step (s mod 64) out =
+              ([ILine [s mod 64] (PSetCSel (s mod 64)); ICall (CSetCSel (s mod 64))], StepOk false out)).
+  { unfold styling_step. assert (s mod 64 <? 64 = true) as -> by lia.
+    replace ((s mod 64) mod 64) with (s mod 64) by lia. reflexivity. }
+  rewrite (run_step_pre false _ _ _ _ _ E). reflexivity.
+Qed.
+
+Lemma ins_nsel s out : run false ((s mod 64 + 64) :: out) = pre [CSetNSel (s mod 64)] (run false out).
+Proof.
+  assert (E : styling_step (s mod 64 + 64) out =
+              ([ILine [s mod 64 + 64] (PSetNSel (s mod 64)); ICall (CSetNSel (s mod 64))], StepOk false out)).
+  { unfold styling_step. assert (s mod 64 + 64 <? 64 = false) as -> by lia.
+    assert (s mod 64 + 64 <? 128 = true) as -> by lia.
+    replace ((s mod 64 + 64) mod 64) with (s mod 64) by lia. reflexivity. }
+  rewrite (run_step_pre false _ _ _ _ _ E). reflexivity.
+Qed.
+
+Definition adj_ok (adj : Z) (incr : bool) : Prop := 0 <= adj <= 6 /\ (incr = true -> adj = 0).
+
+Lemma adj_decode adj incr base : adj_ok adj incr -> base mod 8 = 0 ->
+  let opcode := adj_byte adj incr + base in
+  (opcode mod 8 =? 7) = incr /\ (if opcode mod 8 =? 7 then 0 else opcode mod 8) = adj.
+Proof.
+  intros [R I] B. unfold adj_byte. destruct incr.
+  - specialize (I eq_refl). subst adj. cbv zeta. assert ((7 + base) mod 8 = 7) as -> by lia. split; reflexivity.
+  - cbv zeta. assert ((adj + base) mod 8 = adj) as -> by lia. assert (adj =? 7 = false) as -> by lia. split; reflexivity.
+Qed.
+
+Lemma ins_creg adj incr col out : adj_ok adj incr -> wf_color col ->
+  let '(base, bytes) := enc_color col in
+  run false ((adj_byte adj incr + base) :: bytes ++ out) = pre [CSetCReg adj incr col] (run false out).
+Proof.
+  intros A W. pose proof (enc_dec_color col out W) as H. destruct (enc_color col) as [base bytes].
+  destruct H as (Hb & _ & D).
+  assert (Hb8 : base mod 8 = 0) by lia.
+  destruct (adj_decode adj incr base A Hb8) as [I1 I2]. cbv zeta in I1, I2.
+  assert (Hab : 0 <= adj_byte adj incr <= 7) by (unfold adj_byte; destruct A, incr; lia).
+  set (opcode := adj_byte adj incr + base) in *.
+  assert (E : exists its, styling_step opcode (bytes ++ out) = (its, StepOk false out) /\ calls_of its = [CSetCReg adj incr col]).
+  { unfold styling_step.
+    assert (opcode <? 64 = false) as -> by lia. assert (opcode <? 128 = false) as -> by lia.
+    assert (opcode <? 168 = true) as -> by lia.
+    assert ((opcode - 128) / 8 = (base - 128) / 8) as -> by lia.
+    cbv zeta. rewrite D, I2, I1, skipn_app_len. eexists. split; reflexivity. }
+  destruct E as (its & E & C). rewrite (run_step_pre false _ _ _ _ _ E), C. reflexivity.
+Qed.
+
+Lemma ins_nreg adj incr f out : adj_ok adj incr -> wf_f32 f ->
+  let '(base, bytes) := nreg_choice f in
+  run false ((adj_byte adj incr + base) :: bytes ++ out) = pre [CSetNReg adj incr (q_nreg f)] (run false out).
+Proof.
+  intros A W. pose proof (nreg_app f out W) as H. destruct (nreg_choice f) as [base bytes].
+  destruct H as (Hb & D).
+  assert (Hb8 : base mod 8 = 0) by lia.
+  destruct (adj_decode adj incr base A Hb8) as [I1 I2]. cbv zeta in I1, I2.
+  assert (Hab : 0 <= adj_byte adj incr <= 7) by (unfold adj_byte; destruct A, incr; lia).
+  set (opcode := adj_byte adj incr + base) in *.
+  assert (E : exists its, styling_step opcode (bytes ++ out) = (its, StepOk false out) /\ calls_of its = [CSetNReg adj incr (q_nreg f)]).
+  { unfold styling_step.
+    assert (opcode <? 64 = false) as -> by lia. assert (opcode <? 128 = false) as -> by lia.
+    assert (opcode <? 168 = false) as -> by lia. assert (opcode <? 192 = true) as -> by lia.
+    assert ((opcode - 168) / 8 = (base - 168) / 8) as -> by lia.
+    cbv zeta. rewrite D, I2, I1, skipn_app_len. eexists. split; reflexivity. }
+  destruct E as (its & E & C). rewrite (run_step_pre false _ _ _ _ _ E), C. reflexivity.
+Qed.
+
+Lemma ins_lod a b out : wf_f32 a -> wf_f32 b ->
+  run false (199 :: enc_real a ++ enc_real b ++ out) = pre [CSetLOD (q_real a) (q_real b)] (run false out).
+Proof.
+  intros Wa Wb.
+  assert (E : exists its, styling_step 199 (enc_real a ++ enc_real b ++ out) = (its, StepOk false out)
+                          /\ calls_of its = [CSetLOD (q_real a) (q_real b)]).
+  { unfold styling_step. cbn [Z.ltb Z.eqb Z.compare Pos.compare Pos.compare_cont Pos.eqb].
+    unfold read_num. rewrite (dec_real_app a _ Wa), skipn_app_len, (dec_real_app b _ Wb), skipn_app_len.
+    eexists. split; reflexivity. }
+  destruct E as (its & E & C). rewrite (run_step_pre false _ _ _ _ _ E), C. reflexivity.
+Qed.
+
+Lemma ins_start adj x y out : 0 <= adj <= 6 -> wf_f32 x -> wf_f32 y ->
+  run false ((192 + adj) :: enc_coordinate x ++ enc_coordinate y ++ out) =
+  pre [CStartPath adj (q_coord x) (q_coord y)] (run true out).
+Proof.
+  intros A Wx Wy.
+  assert (E : exists its, styling_step (192 + adj) (enc_coordinate x ++ enc_coordinate y ++ out) = (its, StepOk true out)
+                          /\ calls_of its = [CStartPath adj (q_coord x) (q_coord y)]).
+  { unfold styling_step.
+    assert (192 + adj <? 64 = false) as -> by lia. assert (192 + adj <? 128 = false) as -> by lia.
+    assert (192 + adj <? 168 = false) as -> by lia. assert (192 + adj <? 192 = false) as -> by lia.
+    assert (192 + adj <? 199 = true) as -> by lia.
+    assert ((192 + adj) mod 8 = adj) as -> by lia.
+    destruct (read_coords_app [x; y] out) as (its & E & C); [repeat (apply Forall_cons; [assumption|]); apply Forall_nil|].
+    cbn [length encs flat_map map] in E. rewrite app_nil_r, <- !app_assoc in E. rewrite E.
+    eexists. split; [reflexivity|]. cbn [calls_of flat_map app]. rewrite calls_of_app, C. reflexivity. }
+  destruct E as (its & E & C). rewrite (run_step_pre false _ _ _ _ _ E), C. reflexivity.
+Qed.
+
+Lemma ins_end out : run true (225 :: out) = pre [CEndPath] (run false out).
+Proof.
+  assert (E : drawing_step 225 out = ([ILine [225] (PSimple opZ); ICall CEndPath], StepOk false out)) by reflexivity.
+  rewrite (run_step_pre true _ _ _ _ _ E). reflexivity.
+Qed.
+
+(* ---------- programs ---------- *)
+Definition next_hl (h hl : bool) (c : call) : bool := match c with CStartPath _ _ _ => h | _ => hl end.
+
+Fixpoint expect (h hl : bool) (acts : list eact) : list call :=
+  match acts with
+  | [] => []
+  | AHiRes b :: r => expect b hl r
+  | ACall c :: r => qcall (next_hl h hl c) c :: expect h (next_hl h hl c) r
+  | _ :: r => expect h hl r
+  end.
+
+Definition wf_call (d : bool) (c : call) : Prop :=
+  match c with
+  | CReset _ _ => False
+  | CSetCSel _ | CSetNSel _ => d = false
+  | CSetCReg adj incr col => d = false /\ adj_ok adj incr /\ wf_color col
+  | CSetNReg adj incr f => d = false /\ adj_ok adj incr /\ wf_f32 f
+  | CSetLOD a b => d = false /\ wf_f32 a /\ wf_f32 b
+  | CStartPath adj x y => d = false /\ 0 <= adj <= 6 /\ wf_f32 x /\ wf_f32 y
+  | CDraw _ _ | CArc _ _ _ _ _ _ _ _ => d = true /\ wf_arc_or_draw c
+  | CEndPath => d = true
+  end.
+Definition next_mode (d : bool) (c : call) : bool :=
+  match c with CStartPath _ _ _ => true | CEndPath => false | _ => d end.
+
+Fixpoint wf_acts (d : bool) (acts : list eact) : Prop :=
+  match acts with
+  | [] => True
+  | AHiRes _ :: r => wf_acts d r
+  | ACall c :: r => wf_call d c /\ wf_acts (next_mode d c) r
+  | _ :: _ => False
+  end.
+
+Lemma pre_done d out cs Y : run d out = (Y, Done) -> pre cs (run d out) = (cs ++ Y, Done).
+Proof. intros ->. reflexivity. Qed.
+
+Definition step_spec (e : enc) (pend : list call) (c : call) : Prop :=
+  let e1 := enc_step e c in
+  exists delta pend1,
+    e_buf e1 = e_buf e ++ delta /\ RInv e1 pend1 /\ e_hires e1 = e_hires e /\
+    e_hires_l e1 = next_hl (e_hires e) (e_hires_l e) c /\ dmode e1 = next_mode (dmode e) c /\
+    forall out X, run (dmode e1) out = (map (qcall (e_hires_l e1)) pend1 ++ X, Done) ->
+                  run (dmode e) (delta ++ out) = (map (qcall (e_hires_l e)) pend ++ qcall (e_hires_l e1) c :: X, Done).
+
+Lemma styling_state e pend : RInv e pend -> dmode e = false ->
+  e_mode e = MStyling /\ pend = [] /\ e_drawop e = 0 /\ e_drawargs e = [] /\ e_err e = None.
+Proof.
+  intros (He & Hp & Hm) D. unfold dmode in D. destruct (e_mode e); try contradiction; try discriminate.
+  subst pend. destruct Hp. auto.
+Qed.
+
+Ltac styling_setup e H :=
+  destruct (styling_state _ _ H ltac:(assumption)) as (Hmode & -> & Hop & Hargs & Herr);
+  destruct e as [h hl buf err l0 l1 cs ns mode dop dargs]; cbn in Hmode, Hop, Hargs, Herr; subst;
+  unfold step_spec; cbn [enc_step check_styling e_mode has_err e_err e_buf e_hires e_hires_l e_lod0 e_lod1 e_csel e_nsel e_drawop e_drawargs dmode next_hl next_mode map app].
+
+Lemma RInv_styling h hl buf l0 l1 cs ns : RInv (mkEnc h hl buf None l0 l1 cs ns MStyling 0 []) [].
+Proof. repeat split. Qed.
+
+Lemma step_csel e pend s : RInv e pend -> dmode e = false -> step_spec e pend (CSetCSel s).
+Proof.
+  intros H D. styling_setup e H.
+  exists [s mod 64], []. repeat split.
+  intros out X R. cbn [dmode e_mode map app] in *. rewrite ins_csel. rewrite (pre_done false out _ X R). reflexivity.
+Qed.
+
+Lemma step_nsel e pend s : RInv e pend -> dmode e = false -> step_spec e pend (CSetNSel s).
+Proof.
+  intros H D. styling_setup e H.
+  exists [s mod 64 + 64], []. repeat split.
+  intros out X R. cbn [dmode e_mode map app] in *. rewrite ins_nsel. rewrite (pre_done false out _ X R). reflexivity.
+Qed.
+
+Lemma step_lod e pend a b : RInv e pend -> dmode e = false -> wf_f32 a -> wf_f32 b -> step_spec e pend (CSetLOD a b).
+Proof.
+  intros H D Wa Wb. styling_setup e H.
+  exists (199 :: enc_real a ++ enc_real b), []. repeat split.
+  intros out X R. cbn [dmode e_mode map app qcall] in *. rewrite <- app_assoc, ins_lod by assumption.
+  rewrite (pre_done false out _ X R). reflexivity.
+Qed.
+
+Lemma step_creg e pend adj incr col : RInv e pend -> dmode e = false -> adj_ok adj incr -> wf_color col ->
+  step_spec e pend (CSetCReg adj incr col).
+Proof.
+  intros H D A W. styling_setup e H.
+  pose proof (ins_creg adj incr col) as I.
+  assert (H6 : 6 <? adj = false) by (destruct A; lia). rewrite H6.
+  assert (Hi : incr && negb (adj =? 0) = false) by (destruct A as [? Ai]; destruct incr; [rewrite (Ai eq_refl)|]; reflexivity).
+  rewrite Hi. destruct (enc_color col) as [base bytes].
+  exists ((adj_byte adj incr + base) :: bytes), []. cbn [e_buf e_err e_mode e_hires e_hires_l dmode]. repeat split.
+  intros out X R. cbn [map app qcall] in *. refine (eq_trans (I out A W) _). rewrite (pre_done false out _ X R). reflexivity.
+Qed.
+
+Lemma step_nreg e pend adj incr f : RInv e pend -> dmode e = false -> adj_ok adj incr -> wf_f32 f ->
+  step_spec e pend (CSetNReg adj incr f).
+Proof.
+  intros H D A W. styling_setup e H.
+  pose proof (ins_nreg adj incr f) as I.
+  assert (H6 : 6 <? adj = false) by (destruct A; lia). rewrite H6.
+  assert (Hi : incr && negb (adj =? 0) = false) by (destruct A as [? Ai]; destruct incr; [rewrite (Ai eq_refl)|]; reflexivity).
+  rewrite Hi. destruct (nreg_choice f) as [base bytes].
+  exists ((adj_byte adj incr + base) :: bytes), []. cbn [e_buf e_err e_mode e_hires e_hires_l dmode]. repeat split.
+  intros out X R. cbn [map app qcall] in *. refine (eq_trans (I out A W) _). rewrite (pre_done false out _ X R). reflexivity.
+Qed.
+
+Lemma step_start e pend adj x y : RInv e pend -> dmode e = false -> 0 <= adj <= 6 -> wf_f32 x -> wf_f32 y ->
+  step_spec e pend (CStartPath adj x y).
+Proof.
+  intros H D A Wx Wy. styling_setup e H.
+  assert (H6 : 6 <? adj = false) by lia. rewrite H6. cbn [e_buf e_err e_mode e_hires e_hires_l dmode quant].
+  eexists (_ :: _ ++ _), []. split; [reflexivity|]. repeat split.
+  intros out X R. cbn [map app qcall] in *. rewrite <- app_assoc.
+  rewrite ins_start; [|assumption|apply wf_quantize; assumption|apply wf_quantize; assumption].
+  rewrite (pre_done true out _ X R). reflexivity.
+Qed.
+
+(* ---------- drawing calls ---------- *)
+Lemma in_run_ops c : wf_arc_or_draw c -> In (op_of c) run_ops.
+Proof.
+  destruct c; try contradiction; cbn [wf_arc_or_draw op_of].
+  - tauto.
+  - intros _. destruct rel; vm_compute; tauto.
+Qed.
+
+Lemma drawing_state e pend : RInv e pend -> dmode e = true -> e_mode e = MDrawing /\ e_err e = None /\ pend_ok e pend.
+Proof.
+  intros (He & Hp & Hm) D. unfold dmode in D. destruct (e_mode e); try discriminate. auto.
+Qed.
+
+Definition with_run (e : enc) (op : Z) (args : list f32) : enc :=
+  mkEnc (e_hires e) (e_hires_l e) (e_buf e) (e_err e) (e_lod0 e) (e_lod1 e) (e_csel e) (e_nsel e) (e_mode e) op args.
+
+Lemma draw_append e pend c : e_err e = None -> pend_ok e pend -> wf_arc_or_draw c ->
+  let e1 := if e_drawop e =? op_of c then e else flush e in
+  let e2 := with_run e1 (op_of c) (e_drawargs e1 ++ args_of c) in
+  exists delta pend2,
+    e_buf e2 = e_buf e ++ delta /\ pend_ok e2 pend2 /\
+    e_hires e2 = e_hires e /\ e_hires_l e2 = e_hires_l e /\ e_err e2 = None /\ e_mode e2 = e_mode e /\
+    forall out X, run true out = (map (qcall (e_hires_l e)) pend2 ++ X, Done) ->
+                  run true (delta ++ out) = (map (qcall (e_hires_l e)) pend ++ qcall (e_hires_l e) c :: X, Done).
+Proof.
+  intros Herr P W. pose proof (in_run_ops c W) as Iop. cbv zeta.
+  destruct (e_drawop e =? op_of c) eqn:Same.
+  - apply Z.eqb_eq in Same.
+    destruct pend as [|c0 pend0] eqn:Ep.
+    { destruct P as [P0 _]. rewrite P0 in Same. rewrite <- Same in Iop. apply run_ops_nonzero in Iop. discriminate. }
+    rewrite <- Ep in *. assert (Hne : pend <> []) by (rewrite Ep; discriminate).
+    unfold pend_ok in P. rewrite Ep in P. rewrite <- Ep in P. destruct P as (Io & Pp & Pa).
+    exists [], (pend ++ [c]). cbn [with_run e_buf e_hires e_hires_l e_err e_mode e_drawop e_drawargs].
+    rewrite app_nil_r. split; [reflexivity|]. split.
+    { unfold pend_ok. destruct (pend ++ [c]) eqn:E2; [destruct pend; discriminate|]. rewrite <- E2.
+      cbn [e_drawop e_drawargs]. split; [exact Iop|]. split.
+      - apply Forall_app. split; [rewrite <- Same; exact Pp|]. constructor; [split; [exact W|reflexivity]|constructor].
+      - rewrite flat_map_app, Pa. cbn [flat_map]. rewrite app_nil_r. reflexivity. }
+    repeat split; try assumption.
+    intros out X R. cbn [app]. rewrite R, map_app, <- app_assoc. reflexivity.
+  - destruct (flush_decode e pend P) as (fb & Ef & Df). rewrite Ef.
+    exists fb, [c]. cbn [with_run e_buf e_hires e_hires_l e_err e_mode e_drawop e_drawargs app].
+    split; [reflexivity|]. split.
+    { unfold pend_ok. cbn [e_drawop e_drawargs flat_map]. split; [exact Iop|]. split.
+      - constructor; [split; [exact W|reflexivity]|constructor].
+      - rewrite app_nil_r. reflexivity. }
+    repeat split; try assumption.
+    intros out X R. rewrite Df, R. reflexivity.
+Qed.
+
+Lemma enc_draw_unfold e op args : e_err e = None -> e_mode e = MDrawing ->
+  enc_draw e op args =
+  let e1 := if e_drawop e =? op then e else flush e in
+  let e2 := with_run e1 op (e_drawargs e1 ++ args) in
+  if op =? opZ then flush (set_mode e2 MStyling)
+  else if (op =? opY) || (op =? opy) then flush e2 else e2.
+Proof. intros He Hm. unfold enc_draw, has_err. rewrite He, Hm. reflexivity. Qed.
+
+Lemma step_draw_gen e pend c : RInv e pend -> dmode e = true -> wf_arc_or_draw c ->
+  enc_step e c = enc_draw e (op_of c) (args_of c) -> step_spec e pend c.
+Proof.
+  intros H D W Estep. destruct (drawing_state e pend H D) as (Hmode & Herr & P).
+  unfold step_spec. rewrite Estep, (enc_draw_unfold e _ _ Herr Hmode).
+  destruct (draw_append e pend c Herr P W) as (delta & pend2 & Eb & P2 & Hh & Hhl & He2 & Hm2 & T).
+  cbv zeta in *.
+  set (e2 := with_run (if e_drawop e =? op_of c then e else flush e) (op_of c)
+                      (e_drawargs (if e_drawop e =? op_of c then e else flush e) ++ args_of c)) in *.
+  destruct (run_ops_info _ (in_run_ops c W)) as (_ & NZ).
+  assert (op_of c =? opZ = false) as -> by (apply Z.eqb_neq; exact NZ).
+  assert (Hnl : next_hl (e_hires e) (e_hires_l e) c = e_hires_l e) by (destruct c; try contradiction; reflexivity).
+  assert (Hnm : next_mode (dmode e) c = true) by (rewrite D; destruct c; try contradiction; reflexivity).
+  rewrite Hnl, Hnm, D.
+  destruct ((op_of c =? opY) || (op_of c =? opy)).
+  - destruct (flush_decode e2 pend2 P2) as (fb & Ef & Df). rewrite Ef.
+    exists (delta ++ fb), []. cbn [e_buf e_hires e_hires_l e_err e_mode dmode].
+    rewrite Eb, Hh, Hhl, Hm2, Hmode, <- app_assoc. split; [reflexivity|].
+    split; [repeat split; rewrite ?He2; auto|]. repeat split.
+    intros out X R. cbn [dmode e_mode e_hires_l map app] in R. rewrite <- app_assoc. apply T. rewrite Df, R, Hhl. reflexivity.
+  - exists delta, pend2. rewrite Hhl.
+    split; [exact Eb|]. split; [unfold RInv; rewrite He2, Hm2, Hmode; auto|].
+    split; [exact Hh|]. split; [reflexivity|]. split; [unfold dmode; rewrite Hm2, Hmode; reflexivity|].
+    unfold dmode. rewrite Hm2, Hmode. exact T.
+Qed.
+
+Lemma step_draw e pend op args : RInv e pend -> dmode e = true -> wf_arc_or_draw (CDraw op args) -> step_spec e pend (CDraw op args).
+Proof. intros H D W. apply step_draw_gen; auto. Qed.
+
+Lemma step_arc e pend rel rx ry rot la sw x y : RInv e pend -> dmode e = true ->
+  wf_arc_or_draw (CArc rel rx ry rot la sw x y) -> step_spec e pend (CArc rel rx ry rot la sw x y).
+Proof. intros H D W. apply step_draw_gen; auto. Qed.
+
+Lemma flush_Z e1 : flush (set_mode (with_run e1 opZ []) MStyling) =
+  mkEnc (e_hires e1) (e_hires_l e1) (e_buf e1 ++ [225]) (e_err e1) (e_lod0 e1) (e_lod1 e1) (e_csel e1) (e_nsel e1) MStyling 0 [].
+Proof. reflexivity. Qed.
+
+Lemma step_end e pend : RInv e pend -> dmode e = true -> step_spec e pend CEndPath.
+Proof.
+  intros H D. destruct (drawing_state e pend H D) as (Hmode & Herr & P).
+  unfold step_spec. cbn [enc_step]. rewrite (enc_draw_unfold e _ _ Herr Hmode). cbv zeta.
+  assert (Hnz : e_drawop e =? opZ = false).
+  { destruct pend; [destruct P as [-> _]; reflexivity|]. destruct P as (Io & _).
+    apply Z.eqb_neq. apply (run_ops_info _ Io). }
+  rewrite Hnz. destruct (flush_decode e pend P) as (fb & Ef & Df). rewrite Ef.
+  change (opZ =? opZ) with true. cbv iota. cbn [e_drawargs app]. rewrite flush_Z.
+  exists (fb ++ [225]), [].
+  cbn [e_buf e_hires e_hires_l e_err e_mode dmode next_hl next_mode]. rewrite <- app_assoc.
+  split; [reflexivity|]. split; [repeat split; assumption|]. repeat split.
+  intros out X R. cbn [map app] in R. rewrite <- app_assoc. cbn [app]. rewrite D, Df, ins_end, R. reflexivity.
+Qed.
+
+Lemma step_any e pend c : RInv e pend -> wf_call (dmode e) c -> step_spec e pend c.
+Proof.
+  intros H W. destruct c; cbn [wf_call] in W.
+  - contradiction.
+  - apply step_csel; assumption.
+  - apply step_nsel; assumption.
+  - destruct W as (D & A & Wc). apply step_creg; assumption.
+  - destruct W as (D & A & Wf). apply step_nreg; assumption.
+  - destruct W as (D & Wa & Wb). apply step_lod; assumption.
+  - destruct W as (D & A & Wx & Wy). apply step_start; assumption.
+  - destruct W as (D & Wd). apply step_draw; assumption.
+  - destruct W as (D & Wd). apply step_arc; assumption.
+  - apply step_end; assumption.
+Qed.
+
+(* the instruction part: whatever the encoder state (consistent with a set of pending calls), running a
+   well-formed continuation and asking for the bytes appends instructions that decode to the pending
+   calls followed by the continuation's calls, each in its written-and-read-back form *)
+Lemma body_roundtrip acts : forall e pend, RInv e pend -> wf_acts (dmode e) acts ->
+  exists out, snd (enc_bytes (fst (enc_run e acts))) = BytesOk (e_buf e ++ out) /\
+              run (dmode e) out = (map (qcall (e_hires_l e)) pend ++ expect (e_hires e) (e_hires_l e) acts, Done).
+Proof.
+  induction acts as [|a r IH]; intros e pend H W.
+  - cbn [enc_run fst expect]. rewrite app_nil_r. pose proof H as (Herr & P & Hm).
+    assert (Hes : ensure_started e = e) by (unfold ensure_started; destruct (e_mode e); [contradiction|reflexivity|reflexivity]).
+    unfold enc_bytes. rewrite Herr, Hes. unfold dmode.
+    destruct (e_mode e) eqn:M; [contradiction| |].
+    + subst pend. exists []. rewrite app_nil_r. split; reflexivity.
+    + destruct (flush_decode e pend P) as (fb & Ef & Df). rewrite Ef. exists fb. cbn [snd e_buf].
+      split; [reflexivity|]. rewrite <- (app_nil_r fb), Df, run_nil. unfold pre. cbn [fst snd]. rewrite app_nil_r. reflexivity.
+  - rewrite enc_run_cons. cbn [fst]. destruct a as [c|b| | | |]; cbn [wf_acts] in W; try contradiction.
+    + destruct W as [Wc Wr]. cbn [enc_act fst].
+      destruct (step_any e pend c H Wc) as (delta & pend1 & Eb & H1 & Hh & Hhl & Hd & T).
+      rewrite <- Hd in Wr. destruct (IH (enc_step e c) pend1 H1 Wr) as (out1 & Eo & R1).
+      exists (delta ++ out1). split; [rewrite Eo, Eb, <- app_assoc; reflexivity|].
+      cbn [expect]. rewrite Hh in R1. rewrite <- Hhl. apply T. rewrite R1. reflexivity.
+    + cbn [enc_act fst]. 
+      assert (H1 : RInv (set_hires e b) pend) by (destruct H as (A & B & C); repeat split; assumption).
+      destruct (IH (set_hires e b) pend H1 W) as (out1 & Eo & R1).
+      exists out1. split; [exact Eo|]. exact R1.
 Qed.
